@@ -176,6 +176,10 @@ fn table(max_bits: u64) -> &'static Vec<Vec<Witness>> {
 /// Bit lengths: mostly the full width, sometimes 150..=175 bits (where a per-bit budget is tightest
 /// after rounding to batches of 62), sometimes anywhere.
 pub fn pair(t: &mut Tape, n: usize, want_reduced: bool) -> Option<Witness> {
+    if vmodel::engine::in_fuzz_host() {
+        // the table is built by a search of several seconds (minutes under ASan): not fuzz material
+        return None;
+    }
     let maxb = 64 * n as u64;
     let tb = table(maxb);
     let b = match t.weighted(&[4, 2, 2]) {
